@@ -376,7 +376,9 @@ pub fn explore<W: World + ?Sized>(w: &W, b: &Bounds, rep: &mut Report) {
         }
         // process in chunks so the wall cap is honoured inside a level
         let mut next: Vec<Node<W>> = vec![];
-        let chunk = 128usize;
+        // chunk size adapts so that one chunk costs about a second of wall time (the wall cap is
+        // checked between chunks)
+        let mut chunk = 32usize;
         let mut level_complete = true;
         let mut idx = 0usize;
         while idx < frontier.len() {
@@ -393,6 +395,7 @@ pub fn explore<W: World + ?Sized>(w: &W, b: &Bounds, rep: &mut Report) {
                 break;
             }
             let end = (idx + chunk).min(frontier.len());
+            let t_chunk = Instant::now();
             let outs: Vec<NodeOut<W>> = if frontier.len() <= 32 {
                 frontier[idx..end].iter().map(|n| expand_wide(w, n, depth)).collect()
             } else {
@@ -461,6 +464,9 @@ pub fn explore<W: World + ?Sized>(w: &W, b: &Bounds, rep: &mut Report) {
                 }
             }
             idx = end;
+            let took = t_chunk.elapsed().as_secs_f64().max(0.001);
+            let scaled = (chunk as f64 * (1.0 / took)).clamp(16.0, 4096.0) as usize;
+            chunk = (chunk * 2).min(scaled).max(16);
         }
         if level_complete {
             completed_depth = depth + 1;
